@@ -137,6 +137,12 @@ func (a *sessionAwareAdapter) RestoreSession(
 	session = new(SessionToPersist)
 	*session = sessionWithTS.SessionToPersist
 	session.MissedPackets = missedPackets
+
+	// The session is taken over by the new socket, which persists it again when it gets disconnected
+	// for a recoverable reason. If it stayed here, this state (the rooms of the previous disconnection)
+	// could be restored a second time: while the new socket is still connected,
+	// or after it was disconnected for a reason that is not recoverable.
+	delete(a.sessions, pid)
 	return session, true
 }
 
